@@ -47,7 +47,7 @@ E0 == [k |-> "", q |-> 0, code |-> 0, b1n |-> -1, b1m |-> -1, b1s |-> -1, b2n |-
 NoR == [b1n |-> -1, b1m |-> -1, b1s |-> -1, b2n |-> -1, b2m |-> -1, b2s |-> -1, plen |-> 0, off |-> -1, size1 |-> -1]
 NoM == [code |-> 0, b1n |-> -1, b1m |-> -1, b1s |-> -1, b2n |-> -1, b2m |-> -1, b2s |-> -1, plen |-> 0, cid |-> -1,
         off |-> -1, etag |-> -1, rid |-> 0, x |-> ""]
-NoAct == [a |-> "", st |-> "a", a1 |-> 0, a2 |-> 0, flt |-> "none", fate |-> "ok", M1 |-> 0, M2 |-> 0, sh |-> 0,
+NoAct == [a |-> "", rp |-> FALSE, flt0 |-> "none", dbl |-> FALSE, st |-> "a", a1 |-> 0, a2 |-> 0, flt |-> "none", fate |-> "ok", M1 |-> 0, M2 |-> 0, sh |-> 0,
           b1 |-> FALSE, sv |-> FALSE, nb1 |-> 0, nb2 |-> 0, nreq |-> 0, N |-> 0, C |-> 0]
 
 ReqEv(r, rt) == [E0 EXCEPT !.k = "req", !.q = 1, !.code = Method, !.b1n = r.b1n, !.b1m = r.b1m, !.b1s = r.b1s,
@@ -63,7 +63,7 @@ Step(es) == /\ emit' = es /\ obs' = ObsFold(obs, es)
 Init == /\ pc = "idle"
         /\ cl = [N |-> 0, C |-> 0, ph |-> "b1", szx |-> 0, cur |-> 0, req |-> NoR,
                  alen |-> 0, aszx |-> 0, aetag |-> -1, acid |-> -1, aok |-> TRUE, acode |-> 0]
-        /\ srv = [blen |-> -1, bok |-> TRUE, rid |-> 0, M |-> 0, nb1 |-> 0, nb2 |-> 0, style |-> ""]
+        /\ srv = [blen |-> -1, bok |-> TRUE, rid |-> 0, M |-> 0, nb1 |-> 0, nb2 |-> 0, style |-> "", pers |-> "none", psh |-> 0]
         /\ msg = NoM /\ nreq = 0 /\ nb = NetBudget /\ fb = FaultBudget /\ arm = [f |-> 0, n |-> 0]
         /\ emit = << >> /\ obs = ObsInit /\ act = NoAct
 
@@ -133,11 +133,14 @@ DropReq ==
   /\ UNCHANGED <<pc, cl, srv, msg, fb, arm>>
 
 (* ---- the reference server ------------------------------------------------------------- *)
-IsFinal(r) == (r.b1n >= 0 /\ r.b1m = 0) \/ (r.b1n < 0 /\ r.b2n <= 0)
-Serves(r, flt) == (IsFinal(r) /\ flt # "b1cont") \/ (r.b1n < 0 /\ r.b2n > 0)
+\* (a request with a Block2 option and no Block1 is a continuation once a representation exists -- also when it
+\* asks for block 0 again; the modelled client never puts Block2 into its first request)
+IsFinal(r) == (r.b1n >= 0 /\ r.b1m = 0) \/ (r.b1n < 0 /\ r.b2n < 0)
+Serves(r, flt) == (IsFinal(r) /\ flt # "b1cont") \/ (r.b1n < 0 /\ r.b2n >= 0)
+LenFaults == {"b2short", "b2empty", "b2over"}
 
 \* the Block2 part of a response: representation (rid, M) asked for with r, served at exponent a2
-Serve(m0, r, rid, M, a2, flt, sh) ==
+Serve(m0, r, rid, M, a2, flt, sh) ==     \* sh: payload length of a block with a length fault
   LET szx == IF r.b2n >= 0 THEN Min(a2, r.b2s) ELSE a2
       size == Size(szx)
       off0 == IF r.b2n >= 0 THEN r.b2n * Size(r.b2s) ELSE 0
@@ -147,7 +150,7 @@ Serve(m0, r, rid, M, a2, flt, sh) ==
      ELSE LET off == IF flt = "b2skip" THEN off0 + size ELSE off0
               num == (off \div size) + (IF flt = "b2num" THEN 1 ELSE 0)
               more == off + size < M
-              plen == IF flt = "b2short" THEN sh ELSE Min(size, M - off)
+              plen == IF flt \in LenFaults THEN sh ELSE Min(size, M - off)
           IN [m1 EXCEPT !.b2n = num, !.b2m = IF more THEN 1 ELSE 0, !.b2s = szx, !.plen = plen,
                         !.cid = IF plen > 0 THEN RepCid(rid) ELSE -1, !.off = IF plen > 0 THEN off ELSE -1]
 
@@ -161,25 +164,37 @@ Applicable(flt, r, M, a2) ==
   IN CASE flt = "none"    -> TRUE
        [] flt = "b1num"   -> r.b1n >= 0
        [] flt \in {"b1more", "b1cont"} -> r.b1n >= 0 /\ r.b1m = 0
-       [] flt = "etag"    -> r.b1n < 0 /\ r.b2n > 0
+       [] flt = "etag"    -> r.b1n < 0 /\ r.b2n >= 0
        [] flt = "b2num"   -> Serves(r, flt) /\ blockwise
-       [] flt \in {"b2skip", "b2short"} -> Serves(r, flt) /\ blockwise /\ more
+       [] flt \in {"b2skip", "b2short", "b2empty"} -> Serves(r, flt) /\ blockwise /\ more
+       [] flt = "b2over"  -> Serves(r, flt) /\ blockwise /\ off0 + 2 * size < M
        [] OTHER -> FALSE
 
-Faults == {"b1num", "b1more", "b1cont", "etag", "b2num", "b2skip", "b2short"}
+Faults == {"b1num", "b1more", "b1cont", "etag", "b2num", "b2skip", "b2short", "b2empty", "b2over"}
+
+\* payload lengths of a block that contradicts its size: 1..size-1 / none / size+1 or two whole blocks
+LenChoices(flt, size) == CASE flt = "b2short" -> {1, size - 1}
+                           [] flt = "b2empty" -> {0}
+                           [] flt = "b2over"  -> {size + 1, 2 * size}
+                           [] OTHER           -> {0}
 
 ServerHandle ==
   /\ pc = "srv"
   /\ LET r == cl.req
          final == IsFinal(r)
-     IN \E flt \in (IF fb > 0 /\ FaultOk THEN Faults ELSE {}) \cup {"none"},
+     IN \E flt0 \in (IF fb > 0 /\ FaultOk THEN Faults ELSE {}) \cup {"none"},
+           rp \in BOOLEAN,             \* a length fault: once / on every later block as well
            fate \in {"ok"} \cup (IF nb > 0 /\ NetOk THEN {"dropresp", "dupresp"} ELSE {}),
            a1 \in (IF r.b1n >= 0 THEN 0..r.b1s ELSE {0}),
            style \in (IF r.b1n >= 0 /\ r.b1m = 1 /\ srv.style = "" THEN AckStyles ELSE {srv.style}),
            M1 \in (IF final THEN (IF cl.N \in NsWide THEN Ms ELSE MsFew) ELSE {0}) :
-        \E M2 \in (IF flt = "etag" THEN {srv.M, srv.M + 20} ELSE {0}),
-           a2 \in (IF Serves(r, flt) THEN (IF r.b2n >= 0 THEN 0..r.b2s ELSE 0..MaxSzx) ELSE {0}) :
-        LET rid == IF final THEN 1 ELSE IF flt = "etag" THEN 2 ELSE srv.rid
+        \E M2 \in (IF flt0 = "etag" THEN {srv.M, srv.M + 20} ELSE {0}),
+           a2 \in (IF Serves(r, flt0) THEN (IF r.b2n >= 0 THEN 0..r.b2s ELSE 0..MaxSzx) ELSE {0}) :
+        LET Mcur == IF final THEN M1 ELSE IF flt0 = "etag" THEN M2 ELSE srv.M
+            \* a repeated length fault hits again (no budget) wherever it applies and the response is delivered
+            again == flt0 = "none" /\ srv.pers # "none" /\ fate # "dropresp" /\ Applicable(srv.pers, r, Mcur, a2)
+            flt == IF again THEN srv.pers ELSE flt0
+            rid == IF final THEN 1 ELSE IF flt = "etag" THEN 2 ELSE srv.rid
             \* acknowledgement style of this (not last) Block1 request
             st == CASE style = "as" -> (IF srv.nb1 % 2 = 0 THEN "a" ELSE "s")
                     [] style = "sa" -> (IF srv.nb1 % 2 = 0 THEN "s" ELSE "a")
@@ -187,8 +202,12 @@ ServerHandle ==
                     [] OTHER        -> "a"
             M == IF final THEN M1 ELSE IF flt = "etag" THEN M2 ELSE srv.M
             szx2 == IF r.b2n >= 0 THEN Min(a2, r.b2s) ELSE a2
-        IN \E sh \in (IF flt = "b2short" THEN {1, Size(szx2) - 1} ELSE {0}) :
-        /\ (flt # "none" => (fate # "dropresp" /\ (Combined \/ fate = "ok")))
+        IN \E sh \in (IF again THEN {IF srv.pers = "b2short" THEN Min(srv.psh, Size(szx2) - 1)
+                                      ELSE IF srv.pers = "b2over" THEN (IF srv.psh = 0 THEN 2 * Size(szx2) ELSE Size(szx2) + 1)
+                                      ELSE 0}
+                     ELSE LenChoices(flt, Size(szx2))) :
+        /\ (rp => flt0 \in LenFaults)
+        /\ (flt0 # "none" => (fate # "dropresp" /\ (Combined \/ fate = "ok")))
         /\ Applicable(flt, r, M, a2)
         /\ LET \* Block1: assemble [offset, offset+len), acknowledge
                off == r.b1n * Size(r.b1s)
@@ -218,13 +237,16 @@ ServerHandle ==
                          M    |-> IF Serves(r, flt) THEN M ELSE srv.M,
                          nb1  |-> srv.nb1 + (IF r.b1n >= 0 THEN 1 ELSE 0),
                          nb2  |-> srv.nb2 + (IF Serves(r, flt) THEN 1 ELSE 0),
-                         style |-> IF final THEN "" ELSE style]      \* (irrelevant once the body is complete)
+                         style |-> IF final THEN "" ELSE style,      \* (irrelevant once the body is complete)
+                         pers |-> IF rp THEN flt0 ELSE srv.pers,
+                         \* what is repeated: the short length / for oversize 0 = two whole blocks, 1 = size+1
+                         psh  |-> IF ~rp THEN srv.psh ELSE IF flt0 = "b2over" THEN (IF sh = 2 * Size(szx2) THEN 0 ELSE 1) ELSE sh]
               /\ msg' = m
               /\ Step(asm \o (IF final /\ flt = "b1cont" THEN << >> ELSE rep) \o out)
               /\ act' = [NoAct EXCEPT !.a = "srv", !.st = st, !.a1 = a1, !.a2 = a2, !.flt = flt, !.fate = fate, !.M1 = M1, !.M2 = M2,
-                                      !.sh = sh, !.b1 = (r.b1n >= 0), !.sv = Serves(r, flt), !.nb1 = srv.nb1,
+                                      !.sh = sh, !.rp = rp, !.flt0 = flt0, !.dbl = (flt = "b2over" /\ sh = 2 * Size(szx2)), !.b1 = (r.b1n >= 0), !.sv = Serves(r, flt), !.nb1 = srv.nb1,
                                       !.nb2 = srv.nb2, !.nreq = nreq]
-        /\ fb' = IF flt = "none" THEN fb ELSE fb - 1
+        /\ fb' = IF flt0 = "none" THEN fb ELSE fb - 1
         /\ nb' = IF fate = "ok" THEN nb ELSE nb - 1
         /\ nreq' = IF fate = "dropresp" THEN nreq + 1 ELSE nreq
         /\ pc' = "recv"
@@ -265,9 +287,10 @@ ClientRecv ==
           ELSE IF m.b2n * Size(m.b2s) # cl.alen THEN Fail("NotImplemented")
           ELSE IF m.etag # cl.aetag THEN Fail("ResourceChanged")
           ELSE LET alen2 == cl.alen + m.plen
-                   aok2 == cl.aok /\ (m.plen = 0 \/ (m.off = cl.alen /\ m.cid = cl.acid))
-               IN IF m.b2m = 0 THEN Succeed(cl.acode, alen2, cl.acid, aok2)
-                  ELSE /\ cl' = [cl EXCEPT !.alen = alen2, !.aszx = m.b2s, !.aok = aok2]
+                   acid2 == IF cl.alen = 0 THEN m.cid ELSE cl.acid
+                   aok2 == cl.aok /\ (m.plen = 0 \/ (m.off = cl.alen /\ m.cid = acid2))
+               IN IF m.b2m = 0 THEN Succeed(cl.acode, alen2, acid2, aok2)
+                  ELSE /\ cl' = [cl EXCEPT !.alen = alen2, !.aszx = m.b2s, !.aok = aok2, !.acid = acid2]
                        /\ pc' = "send" /\ emit' = << >> /\ UNCHANGED <<srv, msg, nreq, nb, fb, arm, obs>>
 
 End == /\ pc = "fin" /\ pc' = "end"
